@@ -1020,7 +1020,12 @@ def _contexts_active_by_trickery(frame: types.FrameType) -> List[Context]:
     ret = [
         replace(
             with_block_info[block.handler],
-            obj=frame_details.stack[block.level - 1].__self__,  # type: ignore
+            # (The exit callable that 'with' keeps on the stack is
+            # normally a bound method of the manager. For a manager whose
+            # type provides something else - a static method, a callable
+            # object, a mock - the manager itself isn't recoverable, but
+            # that's no reason to give up on the whole frame.)
+            obj=getattr(frame_details.stack[block.level - 1], "__self__", None),
         )
         for block in with_blocks
     ]
